@@ -15,7 +15,14 @@ final time), "exactly at it" for every tracker of an adaptive / exact stepper, r
 calls, stop handling (all due trackers served, run ends at the stop time with the state of that time,
 reason of the last raising tracker reported, every tracker finalised once).  Where the unchanged code
 deviates from a literal clause the monitor recognises the corner on the data of the failing run and
-names it in the key (ctrl.KNOWN_CORNERS); nothing is keyed by the leg it was found in."""
+names it in the key (ctrl.KNOWN_CORNERS); nothing is keyed by the leg it was found in.
+Non-constant schedules (round-2 seed C08-3, review finding 6): three runs in ten start exactly ON a scheduled time of
+a geometric schedule (t_start = scale*factor**k, k = 0 included; also written as the string 'geometric(1, 2)'), of
+a logarithmic schedule or on an entry of a fixed list (sorted / dense / repeated / out of order; list, tuple,
+array), time strings ('0:01' -> RealtimeInterrupts) are used as interrupts, and `ctrl.monitor_schedule` judges the
+clause "every scheduled time in [t_start, t_end] is served exactly once, in order, within dt/2, the first one AT
+t_start when t_start is scheduled" against the schedule's defining set for fixed-list, geometric and logarithmic
+schedules."""
 import copy
 import json
 
@@ -37,15 +44,26 @@ REQUIRED_THEOREMS = [
 ]
 RULE = ("pairs of runs (stop-free, then with injected stop requests placed on calls of the stop-free trace) "
         "with 1-4 trackers (callback / StorageTracker+MemoryStorage / DataTracker; constant, fixed, logarithmic, "
-        "geometric, adversarial oracle schedules; several trackers due together; D/dt in {0.25..10, x.5 ties, "
-        "non-commensurate}); dyadic numbers compared exactly with the Rat model, decimal numbers bit-exactly with "
+        "geometric, adversarial oracle schedules, time strings; several trackers due together; D/dt in {0.25..10, x.5 ties, "
+        "non-commensurate}); 30 % of the runs start exactly on a scheduled time of a geometric (t_start = "
+        "scale*factor**k, k >= 0, exact products in dyadic mode, the code's own float product in decimal mode; half of "
+        "them given as the string 'geometric(a, b)'), logarithmic (own t_start ==, < the run's or omitted) or "
+        "fixed-list schedule (t_start an entry; sorted, dense, repeated, unsorted, entries before the start; list / "
+        "tuple / array through parse_interrupt); dyadic numbers compared exactly with the Rat model, decimal numbers bit-exactly with "
         "the Float model; a run is distinct by its full case record and non-trivial if it takes >= 2 steps and "
         "makes >= 2 tracker calls")
 ASSUMPTIONS = [
     "theorems are about exact field arithmetic; the Float instantiation of the same definitions is replayed bit for bit",
     "GeometricInterrupts answers (libm log/pow) are replayed as an oracle schedule in Float mode and at float ties",
-    "served-exactly-once and the frame count are proved for constant schedules without t_start offset "
-    "restrictions other than D >= dt; other schedules are covered by the trace theorems and the correspondence",
+    "served-exactly-once is proved for constant schedules (D >= dt) and for every schedule whose scheduled times are "
+    "at least dt apart (served_exactly_once_sequence; instances: fixed lists, logarithmic with d0 >= dt, geometric from "
+    "the member where the gaps have reached dt); the frame-count clauses are proved for constant schedules only",
+    "schedules with members closer than dt (dense / repeated list entries, the early part of a geometric sequence) and "
+    "lists that are not increasing are judged by the monitor against C09's definition of the schedule - the pending "
+    "time is the first not-yet-passed member after the one served last, for a list in list order - : members the "
+    "schedule passes over are not served (properties.jsonl C09: `the first not-yet-passed element of the given "
+    "increasing list`); logarithmic schedules with d0 < dt (history-dependent catch-up) and wall-clock schedules have "
+    "no history-independent defining set: general clauses only (+ first call at t_start for time strings)",
     "`exactly at it for adaptive steppers` is judged for trackers whose schedule is t_start + k*D (the statement's "
     "schedule); a tracker with an own start offset less than dt/2 after t_start is served at t_start",
     "truly adaptive steppers (dt and with it both tolerances change during the run, targets overshot by dt_min = 1e-10) "
